@@ -43,6 +43,11 @@ PDF, CON, PROB = "src/pyhf/pdf.py", "src/pyhf/constraints.py", "src/pyhf/probabi
 PS, PU = "src/pyhf/parameters/paramsets.py", "src/pyhf/parameters/utils.py"
 
 
+# C02.R1 knows the offset bookkeeping as ONE loop in each constructor; R3 (the constant tables of both constraint classes on four
+# interleaved parameter sets) and R9 (the constraint model end to end) decide the same clause from what the constructors compute.
+DEFER = [(["C02.R1"], ["C02.R3", "C02.R9"])]
+
+
 def run(ctx):
     repo = ctx.repo
     r1 = ctx.rule("C02.R1", "RUNOFF/PAIR: auxdata and auxdata_order are extended under the same `constrained` guard; in both constraint classes the aux offset advances by parset.n_parameters exactly once on every path of the loop body, the window is taken before the advance, and the loop iterates the parameter sets in auxdata order", "RUNOFF", floor=6)
